@@ -1131,6 +1131,44 @@ type vfC12Kept struct {
 	data  []byte // the very slice Marshal returned
 	first []byte // its content at that moment
 	coll  bool
+	c     *vfC12Case
+}
+
+// vfC12DecJob: one decode of the sequential run, to be repeated by many goroutines at the same moment
+// (Unmarshal must not share state between calls); fresh = its sequential result.
+type vfC12DecJob struct {
+	id, ti int
+	which  string
+	info   TypeInfo
+	t      *vfC12Type
+	k      *vfC12Kind
+	data   []byte
+	fresh  string
+}
+
+var vfC12Jobs []vfC12DecJob
+var vfC12JobSeq int
+
+func vfC12ResKey(r vfC12Obj) string {
+	if r["st"] != "ok" {
+		return fmt.Sprint(r["st"])
+	}
+	js, _ := json.Marshal(r["gv"])
+	return "ok" + string(js)
+}
+
+// decodes of bytes that changed after Marshal returned them (or that a later Marshal of the same value produced):
+// the real Unmarshal of those bytes into every target of the case, judged like any round trip (C02)
+func vfC12LaterDecs(k *vfC12Kept, b []byte) []interface{} {
+	decs := []interface{}{}
+	if k.c == nil || b == nil {
+		return decs
+	}
+	for i := range k.c.Targets {
+		r := vfC12Unmarshal(k.info, &k.c.T, &k.c.Targets[i].K, b)
+		decs = append(decs, vfC12Obj{"i": i, "res": r})
+	}
+	return decs
 }
 
 func vfC12Later(id int, mode string, b []byte, err error) vfC12Obj {
@@ -1175,7 +1213,7 @@ func vfC12RunCase(c *vfC12Case) (vfC12Obj, *vfC12Kept) {
 	out["res"] = res
 	var kept *vfC12Kept
 	if res["st"] == "ok" {
-		kept = &vfC12Kept{id: c.ID, info: info, val: val, data: data, first: append([]byte{}, data...),
+		kept = &vfC12Kept{id: c.ID, info: info, val: val, data: data, first: append([]byte{}, data...), c: c,
 			coll: c.T.T == "list" || c.T.T == "set" || c.T.T == "map" || c.T.T == "tuple" || c.T.T == "udt"}
 	}
 	var specData []byte
@@ -1191,6 +1229,17 @@ func vfC12RunCase(c *vfC12Case) (vfC12Obj, *vfC12Kept) {
 		put := func(which string, data []byte) {
 			f, dirty, reuse := vfC12UnmarshalAll(info, &c.T, c.P, k, data, which)
 			d[which] = f
+			// arbitrary-precision targets always, every 9th other decode: repeated concurrently later on
+			vfC12JobSeq++
+			kj, _ := json.Marshal(k)
+			if f["st"] != "harness" && which != "spec2" && len(vfC12Jobs) < 6000 && (c.T.T == "varint" || c.T.T == "decimal" ||
+				strings.Contains(string(kj), "bigint") || strings.Contains(string(kj), "\"dec\"") || vfC12JobSeq%9 == 0) {
+				vfC12Jobs = append(vfC12Jobs, vfC12DecJob{id: c.ID, ti: i, which: which, info: info, t: &c.T, k: k,
+					data: append([]byte(nil), data...), fresh: vfC12ResKey(f)})
+				if data != nil && vfC12Jobs[len(vfC12Jobs)-1].data == nil {
+					vfC12Jobs[len(vfC12Jobs)-1].data = []byte{}
+				}
+			}
 			if dirty != nil {
 				d[which+"_dirty"] = dirty
 			}
@@ -1388,7 +1437,11 @@ func TestVfC12Replay(t *testing.T) {
 			}()
 		}
 		for i, k := range stmt { // all values of the statement are read after the last one was marshalled
-			emit(vfC12Later(k.id, "statement", qv[i].value, errs[i]))
+			l := vfC12Later(k.id, "statement", qv[i].value, errs[i])
+			if errs[i] == nil && !bytes.Equal(qv[i].value, k.first) {
+				l["decs"] = vfC12LaterDecs(k, qv[i].value)
+			}
+			emit(l)
 			nstmt++
 		}
 		stmt = stmt[:0]
@@ -1397,11 +1450,11 @@ func TestVfC12Replay(t *testing.T) {
 		if len(sc.Bytes()) == 0 {
 			continue
 		}
-		var c vfC12Case
-		if err := json.Unmarshal(sc.Bytes(), &c); err != nil {
+		c := new(vfC12Case)
+		if err := json.Unmarshal(sc.Bytes(), c); err != nil {
 			t.Fatalf("case %d: %v", n, err)
 		}
-		r, kept := vfC12RunCase(&c)
+		r, kept := vfC12RunCase(c)
 		emit(r)
 		n++
 		if kept == nil {
@@ -1450,7 +1503,7 @@ func TestVfC12Replay(t *testing.T) {
 	for _, k := range sample {
 		res, data := vfC12Marshal(k.info, k.val)
 		if res["st"] == "ok" {
-			conc = append(conc, &vfC12Kept{id: k.id, data: data, first: append([]byte{}, data...)})
+			conc = append(conc, &vfC12Kept{id: k.id, info: k.info, c: k.c, data: data, first: append([]byte{}, data...)})
 		} else {
 			emit(vfC12Later(k.id, "concurrent", nil, fmt.Errorf("%v", res["err"])))
 		}
@@ -1462,15 +1515,65 @@ func TestVfC12Replay(t *testing.T) {
 		// what Marshal returned while the other goroutines were marshalling, and what the slice holds now
 		emit(vfC12Later(k.id, "concurrent-first", k.first, nil))
 		if !bytes.Equal(k.data, k.first) {
-			emit(vfC12Later(k.id, "concurrent", k.data, nil))
+			l := vfC12Later(k.id, "concurrent", k.data, nil)
+			l["decs"] = vfC12LaterDecs(k, k.data)
+			emit(l)
 			nlater++
 		}
 	}
 	// every output of the sequential run, re-read now that thousands of further values were marshalled
 	for _, k := range held {
 		if !bytes.Equal(k.data, k.first) {
-			emit(vfC12Later(k.id, "held", k.data, nil))
+			l := vfC12Later(k.id, "held", k.data, nil)
+			l["decs"] = vfC12LaterDecs(k, k.data)
+			emit(l)
 			nlater++
+		}
+	}
+	// concurrent decoding: eight goroutines repeat the recorded decodes (arbitrary-precision targets first of all:
+	// negative varint / decimal / integer-into-big.Int values of different lengths) at the same moment, each into its
+	// own fresh destination; a result that differs from the sequential one is reported and judged like any decode
+	nconc, nconcDiff := 0, 0
+	if jobs := vfC12Jobs; len(jobs) > 0 {
+		rounds := 1
+		if v, err := strconv.Atoi(os.Getenv("VF_CONC_DECODES")); err == nil && v > len(jobs) {
+			rounds = v / len(jobs)
+		}
+		var mu sync.Mutex
+		diffs := []vfC12Obj{}
+		var dwg sync.WaitGroup
+		for g := 0; g < 8; g++ {
+			dwg.Add(1)
+			go func(g int) {
+				defer dwg.Done()
+				n := 0
+				for r := 0; r < rounds; r++ {
+					for i := range jobs {
+						j := &jobs[(i*(2*g+1)+r*31+g*17)%len(jobs)]
+						d, err := vfC12NewDest(j.k)
+						if err != nil {
+							continue
+						}
+						res := d.decode(j.info, j.t, j.data)
+						n++
+						if vfC12ResKey(res) != j.fresh {
+							mu.Lock()
+							if len(diffs) < 300 {
+								diffs = append(diffs, vfC12Obj{"conc_of": j.id, "i": j.ti, "which": j.which, "res": res})
+							}
+							nconcDiff++
+							mu.Unlock()
+						}
+					}
+				}
+				mu.Lock()
+				nconc += n
+				mu.Unlock()
+			}(g)
+		}
+		dwg.Wait()
+		for _, d := range diffs {
+			emit(d)
 		}
 	}
 	nbig := 0
@@ -1498,8 +1601,8 @@ func TestVfC12Replay(t *testing.T) {
 	}
 	bw.Flush()
 	w.Close()
-	fmt.Printf("VFSUMMARY {\"cases\": %d, \"held\": %d, \"statement_values\": %d, \"concurrent\": %d, \"changed_later\": %d, \"big\": %d}\n",
-		n, len(held), nstmt, len(conc), nlater, nbig)
+	fmt.Printf("VFSUMMARY {\"cases\": %d, \"held\": %d, \"statement_values\": %d, \"concurrent\": %d, \"changed_later\": %d, \"big\": %d, \"concurrent_decode_jobs\": %d, \"concurrent_decodes\": %d, \"concurrent_decodes_differing\": %d}\n",
+		n, len(held), nstmt, len(conc), nlater, nbig, len(vfC12Jobs), nconc, nconcDiff)
 }
 
 // ---------------------------------------------------------------- seeded random vectors (code -> spec)
